@@ -8,6 +8,7 @@ import HotstuffModel.Driver.ReliableSender
 import HotstuffModel.Driver.BatchMaker
 import HotstuffModel.Driver.MempoolSync
 import HotstuffModel.Driver.Synchronizer
+import HotstuffModel.Driver.Timer
 import HotstuffModel.Model.Committee
 /-
 Model driver: one request per line on stdin (an s-expression), one answer line on stdout.
@@ -38,6 +39,7 @@ structure DState where
   bm : BMState := {}
   ms : MSState := {}
   sy : SYState := {}
+  tm : HS.Timer.T := ⟨0, 0⟩
 
 def dispatch (st : DState) (e : Sexp) : DState × Sexp :=
   match handlePure e with
@@ -63,6 +65,9 @@ def dispatch (st : DState) (e : Sexp) : DState × Sexp :=
   | none =>
   match stepSY st.sy e with
   | some (s', r) => ({ st with sy := s' }, r)
+  | none =>
+  match stepTM st.tm e with
+  | some (s', r) => ({ st with tm := s' }, r)
   | none =>
   match handleUnit e with
   | some r => (st, r)
